@@ -28,6 +28,13 @@ class ADevice(Device):
   def constraints(self, constraints):
     self._constraints = constraints.copy()
 
+  def to_dict(self):
+    ''' Dump the user constraints only; the cbounds constraints are rebuilt from cbounds. '''
+    data = super().to_dict()
+    if 'constraints' in data:
+      data['constraints'] = list(self._constraints)
+    return data
+
   @property
   def f(self):
     return self._f
